@@ -49,6 +49,18 @@ impl Node {
     pub fn height_in_adjust_heights_heap(&self) -> (r: &Cell<i32>) ensures cell_val(r) == node_height_in_ahh(self) { unimplemented!() }
     #[verifier::external_body]
     pub fn is_necessary(&self) -> (r: bool) ensures r == node_is_necessary(self) { unimplemented!() }
+    #[verifier::external_body]
+    pub fn height_in_recompute_heap(&self) -> (r: &Cell<i32>) ensures cell_val(r) == node_height_in_rch(self) { unimplemented!() }
+    #[verifier::external_body]
+    pub fn id(&self) -> (u64,) { unimplemented!() }
+}
+pub uninterp spec fn node_height_in_rch(n: &Node) -> i32;
+pub uninterp spec fn node_needs_to_be_computed(n: &Node) -> bool;
+impl Node {
+    #[verifier::external_body]
+    pub fn is_in_recompute_heap(&self) -> (r: bool) ensures r == (node_height_in_rch(self) >= 0) { unimplemented!() }
+    #[verifier::external_body]
+    pub fn needs_to_be_computed(&self) -> (r: bool) ensures r == node_needs_to_be_computed(self) { unimplemented!() }
 }
 
 #[verifier::external_body]
@@ -337,6 +349,93 @@ impl RecomputeHeap {
 //@|         final(self).length == old(self).length, // [frame]
 //@end
 
+
+//@extract fn RecomputeHeap::len
+//@ file: src/recompute_heap.rs
+//@ impl: impl RecomputeHeap
+//@ name: len
+//@ as: fn len(&self) -> (r: usize)
+//@ cells: length
+//@ contract:
+//@|     ensures r == self.length,
+//@end
+
+//@extract fn RecomputeHeap::is_empty
+//@ file: src/recompute_heap.rs
+//@ impl: impl RecomputeHeap
+//@ name: is_empty
+//@ as: fn is_empty(&self) -> (r: bool)
+//@ props: C19 C08
+//@ contract:
+//@|     ensures r == (self.length == 0), // [empty-iff-length-zero]
+//@end
+
+//@extract fn RecomputeHeap::queue_for
+//@ file: src/recompute_heap.rs
+//@ impl: impl RecomputeHeap
+//@ name: queue_for
+//@ as: fn queue_for(&mut self, height: usize) -> (r: &mut RQueue)
+//@ rule R5: `Ref::map(self.queues.borrow(), |queue| &queue[height])` => `self.queues.get_mut(height).unwrap()` x1
+//@ props: C19
+//@ contract:
+//@|     requires height < old(self).queues@.len(),
+//@|     ensures
+//@|         *r == old(self).queues@[height as int], // [the-bucket-of-that-height]
+//@|         final(self).queues@ == old(self).queues@.update(height as int, *final(r)), // [only-that-bucket-can-change-through-it]
+//@|         final(self).height_lower_bound == old(self).height_lower_bound && final(self).length == old(self).length, // [frame]
+//@end
+
+//@extract fn RecomputeHeap::link
+//@ file: src/recompute_heap.rs
+//@ impl: impl RecomputeHeap
+//@ name: link
+//@ as: fn link(&mut self, node: NodeRef)
+//@ cells: queues
+//@ rule R5: `q.borrow_mut().push_back(node);` => `q.push_back(node);` x1
+//@ props: C19
+//@ contract:
+//@|     requires old(self).wf(), 0 <= node_height(&*node) <= old(self).mha(),
+//@|     ensures
+//@|         final(self).queues@.len() == old(self).queues@.len(), // [limit-unchanged]
+//@|         final(self).queues@[node_height(&*node) as int]@ == old(self).queues@[node_height(&*node) as int]@.push(node), // [node-appended-to-the-bucket-of-its-height]
+//@|         forall|i: int| 0 <= i < old(self).queues@.len() && i != node_height(&*node) ==> final(self).queues@[i] == old(self).queues@[i], // [other-buckets-untouched]
+//@|         final(self).height_lower_bound == old(self).height_lower_bound && final(self).length == old(self).length, // [frame]
+//@end
+
+//@extract fn RecomputeHeap::insert
+//@ file: src/recompute_heap.rs
+//@ impl: impl RecomputeHeap
+//@ name: insert
+//@ as: fn insert(&mut self, node: NodeRef)
+//@ cells: height_lower_bound, length
+//@ tracing: yes
+//@ props: C19 C05
+//@ contract:
+//@|     requires
+//@|         old(self).wf(), old(self).lower_bound_ok(), old(self).length < usize::MAX,
+//@|         0 <= node_height(&*node) <= old(self).mha(),
+//@|         node_height_in_rch(&*node) < 0 && node_needs_to_be_computed(&*node),     // not queued yet, and necessary and stale
+//@|     ensures
+//@|         final(self).length == old(self).length + 1, // [one-more-queued]
+//@|         final(self).height_lower_bound == (if node_height(&*node) < old(self).height_lower_bound { node_height(&*node) } else { old(self).height_lower_bound }), // [lower-bound-covers-the-new-node]
+//@|         final(self).queues@.len() == old(self).queues@.len(), // [limit-unchanged]
+//@|         final(self).queues@[node_height(&*node) as int]@ == old(self).queues@[node_height(&*node) as int]@.push(node), // [queued-in-the-bucket-of-its-height]
+//@|         forall|i: int| 0 <= i < old(self).queues@.len() && i != node_height(&*node) ==> final(self).queues@[i] == old(self).queues@[i], // [other-buckets-untouched]
+//@end
+
+//@extract fn RecomputeHeap::link!too_high
+//@ file: src/recompute_heap.rs
+//@ impl: impl RecomputeHeap
+//@ name: link
+//@ as: fn link__too_high_must_panic(&mut self, node: NodeRef)
+//@ cells: queues
+//@ panics: diverge
+//@ rule R5: `q.borrow_mut().push_back(node);` => `q.push_back(node);` x*
+//@ props: C19
+//@ contract:
+//@|     requires old(self).wf(), node_height(&*node) > old(self).mha() || node_height(&*node) < 0,
+//@|     ensures false, // [scheduling-a-node-outside-the-height-range-always-panics]
+//@end
 }
 
 
@@ -356,6 +455,22 @@ proof fn lemma_reconfiguring_keeps_every_queued_node_reachable(o: RecomputeHeap,
             assert(f.queues@[i] == o.queues@[i]);
             assert((#[trigger] o.queues@[i])@.len() == 0);
         }
+    }
+}
+
+/// scheduling: the clauses of `insert` keep "no queued node lies below the lower bound"
+proof fn lemma_insert_keeps_every_queued_node_reachable(o: RecomputeHeap, f: RecomputeHeap, h: int)
+    requires
+        o.lower_bound_ok(), 0 <= h < o.queues@.len(),
+        f.queues@.len() == o.queues@.len(),
+        f.height_lower_bound == (if h < o.height_lower_bound { h } else { o.height_lower_bound as int }),
+        forall|i: int| 0 <= i < o.queues@.len() && i != h ==> (#[trigger] f.queues@[i]) == o.queues@[i],
+    ensures f.lower_bound_ok(),
+{
+    assert forall|i: int| 0 <= i < f.queues@.len() && i < f.height_lower_bound implies (#[trigger] f.queues@[i])@.len() == 0 by {
+        assert(i != h);
+        assert(f.queues@[i] == o.queues@[i]);
+        assert((#[trigger] o.queues@[i])@.len() == 0);
     }
 }
 
